@@ -314,7 +314,8 @@ impl Future for ProbeFut {
 }
 
 /// What the controller thread does once the runtime thread has exported the wakers.
-type Controller = Box<dyn FnOnce(&[Arc<Probe>], &Arc<Probe>, &mpsc::Sender<()>) -> (u64, u64) + Send>;
+type Controller =
+    Box<dyn FnOnce(&[Arc<Probe>], &Arc<Probe>, &mpsc::Sender<()>, &Waker) -> (u64, u64) + Send>;
 
 /// Runs a runtime with `ntasks` probe tasks and a probe main future; `hold` makes
 /// the runtime thread sit inside the main future's poll (not ticking) until the
@@ -340,7 +341,7 @@ fn with_runtime(drv: u64, q: usize, ntasks: usize, hold: bool, ctl: Controller) 
             while !ready.load(SeqCst) {
                 std::thread::yield_now();
             }
-            let r = ctl(&tasks, &main, &go_tx);
+            let r = ctl(&tasks, &main, &go_tx, &drv_waker);
             *result.lock().unwrap() = r;
             let _ = go_tx.send(());
             for t in &tasks {
@@ -394,6 +395,35 @@ fn with_runtime(drv: u64, q: usize, ntasks: usize, hold: bool, ctl: Controller) 
     Ok(r)
 }
 
+/// Joins the waker threads. A `wake()` that does not return within `limit` is
+/// counted as stuck; the driver is then woken from here until the thread gets
+/// through, so that the harness can go on to the next case.
+fn join_wakers<T>(
+    hs: Vec<std::thread::JoinHandle<T>>,
+    drv: &Waker,
+    limit: Duration,
+) -> (Vec<T>, u64) {
+    let t = Instant::now();
+    while hs.iter().any(|h| !h.is_finished()) && t.elapsed() < limit {
+        std::thread::sleep(Duration::from_millis(2));
+    }
+    let stuck = hs.iter().filter(|h| !h.is_finished()).count() as u64;
+    let t = Instant::now();
+    while hs.iter().any(|h| !h.is_finished()) && t.elapsed() < Duration::from_secs(20) {
+        drv.wake_by_ref();
+        std::thread::sleep(Duration::from_millis(1));
+    }
+    let mut out = Vec::new();
+    for h in hs {
+        if h.is_finished() {
+            if let Ok(r) = h.join() {
+                out.push(r);
+            }
+        }
+    }
+    (out, stuck)
+}
+
 /// Waits until every (probe, count-before-wake) pair has been polled again.
 fn missing_after(records: &[(Arc<Probe>, u64)], watchdog: Duration) -> u64 {
     let t = Instant::now();
@@ -418,7 +448,7 @@ fn executor(drv: u64, sub: u64, q: u64, c: u64, seed: u64) -> Result<Vec<u64>, B
         0 | 1 => {
             // c threads wake random tasks (sub 0) / the main future (sub 1), 40 times each
             let ntasks = if sub == 0 { 3 } else { 1 };
-            let ctl: Controller = Box::new(move |tasks, main, _go| {
+            let ctl: Controller = Box::new(move |tasks, main, _go, drv| {
                 let targets: Vec<Arc<Probe>> = if sub == 0 { tasks.to_vec() } else { vec![main.clone()] };
                 let mut hs = Vec::new();
                 for i in 0..c {
@@ -439,13 +469,11 @@ fn executor(drv: u64, sub: u64, q: u64, c: u64, seed: u64) -> Result<Vec<u64>, B
                         recs
                     }));
                 }
-                let mut all = Vec::new();
-                for h in hs {
-                    all.extend(h.join().unwrap_or_default());
-                }
+                let (recs, stuck) = join_wakers(hs, drv, Duration::from_secs(5));
+                let all: Vec<_> = recs.into_iter().flatten().collect();
                 // all wake() calls have returned
                 let missing = missing_after(&all, Duration::from_secs(2));
-                (all.len() as u64, missing)
+                (all.len() as u64 + stuck, missing + stuck)
             });
             with_runtime(drv, q as usize, ntasks, false, ctl)?
         }
@@ -455,7 +483,7 @@ fn executor(drv: u64, sub: u64, q: u64, c: u64, seed: u64) -> Result<Vec<u64>, B
             if ntasks > 200 {
                 return Err(BadCase);
             }
-            let ctl: Controller = Box::new(move |tasks, _main, go| {
+            let ctl: Controller = Box::new(move |tasks, _main, go, drv| {
                 let mut hs = Vec::new();
                 for t in tasks {
                     let t = t.clone();
@@ -469,20 +497,16 @@ fn executor(drv: u64, sub: u64, q: u64, c: u64, seed: u64) -> Result<Vec<u64>, B
                 // give the wakers time to fill the queue, then let the runtime go
                 std::thread::sleep(Duration::from_millis(30));
                 let _ = go.send(());
-                let mut all = Vec::new();
-                for h in hs {
-                    if let Ok(r) = h.join() {
-                        all.push(r);
-                    }
-                }
+                // a wake() that never returns (queue full, runtime asleep) is a lost wake too
+                let (all, stuck) = join_wakers(hs, drv, Duration::from_secs(3));
                 let missing = missing_after(&all, Duration::from_secs(2));
-                (all.len() as u64, missing)
+                (all.len() as u64 + stuck, missing + stuck)
             });
             with_runtime(drv, q as usize, ntasks, true, ctl)?
         }
         3 => {
             // forced: the second waker is parked between its failed and its successful push
-            let ctl: Controller = Box::new(move |tasks, main, go| {
+            let ctl: Controller = Box::new(move |tasks, main, go, _drv| {
                 let q = q as usize;
                 // fill the queue
                 let mut all = Vec::new();
